@@ -553,6 +553,8 @@ pub struct World {
     pub probe_base: u64,
     /// height at which the chain is initialised (empty blocks below it are mined first)
     pub base: u64,
+    /// signers (by index) that have a transaction waiting for a predecessor
+    pub owed: Vec<(usize, u64)>,
 }
 
 impl World {
@@ -584,6 +586,7 @@ impl World {
             profile: Profile::default(),
             probe_base: 0x1000,
             base: 0,
+            owed: Vec::new(),
         }
     }
 
@@ -816,18 +819,36 @@ impl World {
                 r
             }
             2 => {
-                let si = self.rng.below(self.signers.len() as u64) as usize;
+                // a signer with a transaction waiting is likely to send the missing predecessor soon
+                // (in a later block, so that a block boundary - and perhaps a commit - lies in between)
+                let here = d.next_height();
+                let due = self.owed.iter().position(|(_, at)| *at < here);
+                let pay = due.is_some() && self.rng.chance(2, 3);
+                let si = if pay { self.owed.remove(due.unwrap()).0 } else { self.rng.below(self.signers.len() as u64) as usize };
                 let signer = self.signers[si].clone();
                 let cur = account_nonce(&mut d.inst, &signer.addr);
-                let nonce = if self.rng.chance(p.p_future_nonce, 100) {
-                    cur + self.rng.range(1, 11)
+                let nonce = if pay {
+                    cur
+                } else if self.rng.chance(p.p_future_nonce, 100) {
+                    // half of the waiting transactions are the direct successor (drained by the next one)
+                    if self.rng.chance(1, 2) { cur + 1 } else { cur + self.rng.range(1, 11) }
                 } else if self.rng.chance(1, 12) && cur > 0 {
                     cur - 1
                 } else {
                     cur
                 };
-                let chain = if self.rng.chance(1, 20) { Some(1) } else { Some(self.chain_id) };
-                let (to, mut data) = if have_tool && self.rng.chance(4, 5) {
+                if nonce == cur + 1 && !self.owed.iter().any(|(x, _)| *x == si) {
+                    self.owed.push((si, here));
+                }
+                let chain = if !pay && self.rng.chance(1, 20) { Some(1) } else { Some(self.chain_id) };
+                let (to, mut data) = if have_tool && nonce > cur && self.profile.use_probe && self.rng.chance(1, 2) {
+                    // a transaction that will wait: let it record the context it finally runs in (block,
+                    // sender, the bitcoin transaction id supplied with it) when it is drained
+                    let t = parse_addr(&self.tools[0].clone());
+                    self.probe_base += 0x20;
+                    let k = self.rng.below(4);
+                    (Some(t), asm::tool_call(asm::OP_PROBE, &[asm::word_u64(self.probe_base), asm::word_u64(k), asm::word_u64(self.rng.below(6))], &[]))
+                } else if have_tool && self.rng.chance(4, 5) {
                     let t = parse_addr(&self.rng.pick(&self.tools.clone()).clone());
                     (Some(t), self.tool_calldata())
                 } else {
